@@ -20,7 +20,7 @@ Definition p_ev : parser ev :=
   match tag with
   | 0 => let* p := pN in let* d := pBool in let* l := pN in let* t := pN in pret (ESend p d l t)
   | 1 => let* r := pN in pret (ECancel r)
-  | 2 => let* p := pN in let* b := pBool in pret (EEstablished p b)
+  | 2 => let* p := pN in let* b := pBool in let* cap := pN in pret (EEstablished p b cap)
   | 3 => let* p := pN in pret (EClosed p)
   | 4 => let* p := pN in pret (EDialFail p)
   | 5 => let* k := pN in let* g := pN in pret (EOpened k g)
@@ -42,7 +42,8 @@ Definition p_ev : parser ev :=
 Definition NPEERS : N := 4.
 Definition ev_peer_ok (e : ev) : bool :=
   match e with
-  | ESend p _ _ _ | EEstablished p _ | EClosed p | EDialFail p | EInOpen p _ | EBreakConn p => p <? NPEERS
+  | EEstablished p _ cap => (p <? NPEERS) && (cap <=? 4096)
+  | ESend p _ _ _ | EClosed p | EDialFail p | EInOpen p _ | EBreakConn p => p <? NPEERS
   | _ => true
   end.
 
